@@ -49,6 +49,7 @@ type item struct {
 }
 
 type Emitter struct {
+	names map[string]int
 	items   []item
 	n       int
 	discard bool
@@ -149,6 +150,16 @@ func (e *Emitter) oblige(o *Obligation) {
 		return
 	}
 	o.Tag = e.curTag
+	// obligation names identify replay files, solver files and known findings:
+	// they must be unique within a function (several back edges, several
+	// return paths and repeated calls otherwise share a name)
+	if e.names == nil {
+		e.names = map[string]int{}
+	}
+	e.names[o.Name]++
+	if n := e.names[o.Name]; n > 1 {
+		o.Name = fmt.Sprintf("%s~%d", o.Name, n)
+	}
 	e.items = append(e.items, item{obl: o})
 }
 
